@@ -157,13 +157,15 @@ def r3(fx):
     fx.info['C04.R3 find_version runs'] = n_cases
 
 
-def _encode_stub_env(fx, it, guessed):
-    """Environment for interpreting encode() with content abstracted away."""
+def _encode_stub_env(fx, it, guessed, seg=None):
+    """Environment for interpreting encode() with content abstracted away.  seg: (mode name, encoding) of the content."""
     md = modes(fx)
     rec = {}
 
     def prepare_data(content, mode, encoding):
         rec['prepare'] = (mode, encoding)
+        if seg is not None:
+            return SegmentsModel([SegModel(md[seg[0]], seg[1])])
         return SegmentsModel([SegModel(mode if mode is not None else md['byte'], None)])
 
     def find_version(segments, error, eci, micro, is_sa=False):
@@ -180,7 +182,7 @@ def _encode_stub_env(fx, it, guessed):
     return genv, rec
 
 
-@rule('C04', 'R4', 19, 'encode: a requested version is returned iff the smallest fitting version is not larger; else DataOverflowError')
+@rule('C04', 'R4', 30, 'encode: a requested version is returned iff the smallest fitting version is not larger; else DataOverflowError')
 def r4(fx):
     fn = fx.fn('encoder', 'encode')
     mv = micro_versions(fx)
@@ -224,11 +226,12 @@ def r4(fx):
     # the same eci / micro reach the search
     for eci in (False, True):
         for micro in (None, False):
-            genv, rec = _encode_stub_env(fx, it, 1)
-            FuncVal(fn, genv, it)('<content>', 'm', None, None, None, None, eci, micro, True)
-            e = rec.get('find_version')
-            yield ob(f'search sees eci={eci} micro={micro} and the requested level', e is not None and e[1] == eci and e[2] is micro
-                     and e[0] == levels(fx)['M'] and rec['_encode']['eci'] == eci, fn, got=e, want=('M', eci, micro))
+            for seg in (('byte', 'iso-8859-1'), ('byte', 'utf-8'), ('numeric', None), ('kanji', None)):
+                genv, rec = _encode_stub_env(fx, it, 1, seg=seg)
+                FuncVal(fn, genv, it)('<content>', 'm', None, None, None, None, eci, micro, True)
+                e = rec.get('find_version')
+                yield ob(f'search sees eci={eci} micro={micro} and the requested level ({seg[0]}/{seg[1]} content)', e is not None and e[1] is eci
+                         and e[2] is micro and e[0] == levels(fx)['M'] and rec['_encode']['eci'] is eci, fn, got=e, want=('M', eci, micro))
 
 
 def _fit_witness(fx, fn, call):
@@ -347,6 +350,12 @@ def _witness_ob(fx, fn, call, seg, ver):
                         return
     yield ob(f'_encode({segt}, version={vert})' + (' in comprehension' if comp is not None else ''), witness is not None, call,
              got=witness or 'no fit witness found', want='version := find_version(segments) or dominating raise on find_version(segments) > version')
+
+
+@rule('C04', 'R7', 32, 'Segments bookkeeping (bit_length, modes) stays equal to the segments it describes, also when parts are merged (C01.R5)')
+def r7(fx):
+    from . import p01
+    yield from p01.r5(fx)
 
 
 @rule('C04', 'R6', 300, 'bits budgeted by bit_length_with_overhead = bits written by write_segment/_encode for every version, mode, ECI, SA combination')
